@@ -303,6 +303,54 @@ int main(int argc, char** argv) {
             }
             out << "putinfo " << s << " existed=" << existed << " changed=" << changed << " split=" << (split_new != nullptr)
                 << " ok=" << ok;
+        } else if (op == "iscan") {
+            // iscan S L le R re rtl : open, next until the end, close; keys through full_key(), callbacks recorded
+            std::string st = unhex(tk());
+            std::string ls, rs;
+            std::string lt = tk();
+            scan_endpoint le = ep(tk());
+            std::string rt = tk();
+            scan_endpoint re = ep(tk());
+            bool rtl = tk() == "1";
+            std::string_view lk = keyview(lt, ls), rk = keyview(rt, rs);
+            std::vector<std::pair<node_version64*, node_version64_body>> cbs;
+            auto cb = [&cbs](node_version64* p, node_version64_body b) {
+                cbs.emplace_back(p, b);
+                return false;
+            };
+            iscan_context* ctx = nullptr;
+            void* val = nullptr;
+            status rc = iscan_open(st, lk, le, rk, re, rtl, false, ctx, val, cb);
+            status first = rc;
+            std::ostringstream body;
+            std::size_t n = 0;
+            while (rc == status::OK && n < 100000) {
+                std::string fk = ctx->full_key();
+                std::pair<char*, std::size_t> g{};
+                status gs = get<char>(st, fk, g);
+                body << " " << tohex(fk) << ":";
+                if (gs != status::OK) body << "NOGET";
+                else if (static_cast<void*>(g.first) != val) body << "PTRDIFF";
+                else if (reinterpret_cast<std::uintptr_t>(g.first) > 0x100000000ULL) body << tohex(g.first, g.second);
+                else body << "w" << hx(reinterpret_cast<std::uintptr_t>(g.first));
+                ++n;
+                rc = iscan_next(ctx, val, cb);
+            }
+            if (ctx != nullptr) iscan_close(ctx);
+            status shown = (first == status::OK || first == status::OK_SCAN_END) ? status::OK : first;
+            out << "iscan " << shown << " n=" << n << " t=[" << body.str() << " ] end=" << rc << " cb=[";
+            for (auto& e : cbs) {
+                auto a = reinterpret_cast<std::uintptr_t>(e.first);
+                std::string id = "#?nv";
+                for (std::uintptr_t base = a & ~std::uintptr_t{63}; base + 512 > a; base -= 64) {
+                    if (const auto* r = vtrack::find(reinterpret_cast<void*>(base)); r != nullptr && r->live) {
+                        id = "#" + std::to_string(r->serial);
+                        break;
+                    }
+                }
+                out << " " << id << ":" << hx(rawv(e.second));
+            }
+            out << " ]";
         } else if (op == "dump") {
             std::string st = unhex(tk());
             tree_instance* ti{};
